@@ -52,7 +52,10 @@ class C18(PropBase):
         return ";".join(steps), expect
 
     def explore(self, rep, run, rng, tier, driver_ok):
-        seqs = [("refuse",), ("close",), ("frames",), ("partial",), ("junk",), ("long",), ("refuse", "partial"), ("partial", "refuse"), ("refuse", "refuse"), ("long", "partial"), ("reset0",), ("reset0", "refuse")]
+        seqs = [("refuse",), ("close",), ("frames",), ("partial",), ("junk",), ("long",), ("refuse", "partial"), ("partial", "refuse"), ("refuse", "refuse"), ("long", "partial"), ("reset0",), ("reset0", "refuse"),
+                # connections that delivered nothing, then a port that stays closed across TWO attempts: the pause after a failed attempt
+                # is about 5 s whatever came before (a single closed window of 2.5 s cannot tell a late first attempt from a refused one)
+                ("close", "refuse", "refuse"), ("reset0", "junk", "refuse", "refuse")]
         if tier == "thorough":
             seqs = [()] + [(k,) for k in KINDS] + list(itertools.product(KINDS, repeat=2)) + rng.sample(list(itertools.product(KINDS, repeat=3)), 40)
         results = {}
